@@ -40,6 +40,18 @@ def make_env(kind, variant=0):
             tr.add_events([EventNBBO(g, a, pa * 0.999, pa * 1.001), EventNBBO(g, b, pb * 0.999, pb * 1.001)])
         return TradingEnv(action_space=BoxPortfolio([a, b], -1, 1), state=[LastPrices(a)], transmitter=tr,
                           broker_fees=BrokerFees(proportional=0.001, fixed=0.01), latency=0, steps_delay=variant % 2)
+    if kind == "spot_markov":
+        # markov reset (what TradingEnvXY builds for window=1): reset hands the transmitter's own partition lists to the environment
+        a = ETF("AAA")
+        grid = [D0 + timedelta(days=i + 40 * variant) for i in range(8)]
+        r = np.random.default_rng(300 + variant)
+        tr = Transmitter(grid, markov_reset=True)
+        p = 100.0
+        for g in grid:
+            p *= float(1 + r.normal(0, 0.02))
+            tr.add_events([EventNBBO(g, a, p * 0.999, p * 1.001), EventNBBO(g + timedelta(seconds=10), a, p * 1.01 * 0.999, p * 1.01 * 1.001)])
+        return TradingEnv(action_space=BoxPortfolio([a], -1, 1), state=[LastPrices(a)], transmitter=tr, latency=variant * 30,
+                          steps_delay=variant % 2)
     if kind == "spot_latency":
         a = ETF("AAA")
         grid = [D0 + timedelta(hours=i + 30 * variant) for i in range(8)]
@@ -89,6 +101,17 @@ def snap(env, out):
     return (repr(float(reward)), bool(done), hold, repr(float(b.net_liquidation_value(False))), trades, len(rec), o)
 
 
+def snap_reset(env, obs):
+    """the observation returned by reset and the order-book history it left (what the replayed warm-up events produced)"""
+    o = None
+    try:
+        o = {k: np.asarray(v).tolist() for k, v in obs.items()} if isinstance(obs, dict) else np.asarray(obs).tolist()
+    except Exception:
+        o = None
+    books = {str(k): len(b.history["bid_price"]) for k, b in sorted(env.exchange._books.items(), key=lambda kv: str(kv[0]))}
+    return ("reset", False, books, repr(float(env.broker.net_liquidation_value(False))), [], 0, o)
+
+
 def run_alone(kind, variant, n, prefix=None):
     """trace of n steps after reset; prefix: None | ('complete',) | ('abandon', k) | ('error',) earlier episode on the same env"""
     env = make_env(kind, variant)
@@ -110,8 +133,7 @@ def run_alone(kind, variant, n, prefix=None):
                 env.step(np.array([np.nan] * len(acts[0])))
             except ValueError:
                 pass
-    env.reset()
-    tr = []
+    tr = [snap_reset(env, env.reset())]
     for a in acts:
         try:
             out = env.step(a)
@@ -133,12 +155,12 @@ def interleave(k1, v1, k2, v2, n, schedule):
     for who in schedule:
         if who == 0:
             if not r1:
-                e1.reset(); r1 = True
+                t1.append(snap_reset(e1, e1.reset())); r1 = True
             elif i1 < len(a1) and not (t1 and t1[-1][1]):
                 t1.append(snap(e1, e1.step(a1[i1]))); i1 += 1
         else:
             if not r2:
-                e2.reset(); r2 = True
+                t2.append(snap_reset(e2, e2.reset())); r2 = True
             elif i2 < len(a2) and not (t2 and t2[-1][1]):
                 t2.append(snap(e2, e2.step(a2[i2]))); i2 += 1
     return t1, t2
@@ -155,12 +177,12 @@ def first_diff(a, b):
 
 def isolation(tier, seed):
     acc = Acc("reproducibility: reset after {completed, abandoned(k), errored} episodes and a fresh identical environment vs a fresh run; "
-              "isolation: two environments (spot with fees/delay/feature history; ES futures chain at different clocks) under "
+              "(also with a markov-reset transmitter); isolation: two environments (spot with fees/delay/feature history; ES futures chain at different clocks) under "
               "round-robin, blocked and seeded random interleavings of reset/step calls; traces compared with == on repr(float); "
               "non-trivial = distinct (configuration, prefix / schedule)", "<= 7 steps per environment, 2 environments")
     n = 5 if tier == "quick" else 7
     base = {}
-    for kind in ("spot", "chain", "spot_latency", "chain_latency"):
+    for kind in ("spot", "chain", "spot_latency", "chain_latency", "spot_markov"):
         for v in (0, 1):
             base[(kind, v)] = run_alone(kind, v, n)
     prefixes = [("complete",), ("abandon", 2), ("error",)] + ([("abandon", 1), ("abandon", 4)] if tier != "quick" else [])
